@@ -13,9 +13,12 @@ from summaries import mk_time  # noqa: E402
 from values import VArr, VOpaque, VSeq, VStr, VStruct, bv, key_bv  # noqa: E402
 
 F64 = z3.Float64()
-BOUNDS = ["TrustAwarePeerSelector: candidate lists of exactly m distinct nodes, m in {1,2} (quick) / {1,2,3} (thorough), 256-bit ids and key fully symbolic, count 0..m+1, "
-          "trust provider = arbitrary function id -> f64 (any bit pattern incl. NaN for the safety goals; [0,1] for the ranking goals), trust_weight in [0,1], threshold in [0,1]"]
-OUTSIDE = ["candidate lists longer than the bound", "trust_weight outside [0,1]", "the distance-only fallback in DhtCoreEngine::select_query_peers (async)"]
+BOUNDS = ["TrustAwarePeerSelector safety goals (membership, distinctness, count, trust floor): candidate lists of exactly m distinct nodes, m in {1,2} (quick) / {1,2,3} (thorough), 256-bit ids and key fully symbolic, "
+          "count 0..m+1, trust provider = arbitrary function id -> f64 (any bit pattern incl. NaN), trust_weight and threshold any f64 in [0,1]",
+          "ranking goals, regime 'low_bytes': ids agreeing in their 16 high-order bytes (all 2^128 common prefixes), low-order 16 bytes and key fully symbolic, one common trust value (any f64 in [0,1])",
+          "ranking goals, regime 'grid' (thorough; quick uses the sub-grid distances {0,1,2^53,2^53+1,2^64,1e30,2^127,2^128-1} x trust {0,0.3,0.9,1} x weight {0.3,0.5}): high-order XOR distance from 16 boundary values (0,1,255,2^8,2^53-1,2^53,2^53+1,2^64,2^64+1,2^100,1e30,2e30,2^120,2^127-1,2^127,2^128-1), "
+          "trust from {0,0.1,0.2,0.29,0.3,0.5,0.9,1}, trust_weight from {0,0.3,0.5,1}, low-order 16 bytes and key fully symbolic"]
+OUTSIDE = ["candidate lists longer than the bound", "ranking for high-order distances / trust values / weights off the grids when the high-order bytes differ (fully symbolic u128->f64 score comparison exceeds the solver cap)", "trust_weight outside [0,1]", "the distance-only fallback in DhtCoreEngine::select_query_peers (async)"]
 ASSUMPTIONS = ["candidate ids pairwise distinct (the routing table lists each peer once: C02)", "TrustProvider::get_trust is a pure function of the node id during one selection"]
 
 
@@ -27,10 +30,15 @@ def mk_struct(eng, tyname, vals):
     return VStruct([vals[f] for f in names], adt.name)
 
 
-def node_info(eng, src, name, tag):
+def node_info(eng, src, name, tag, share_high=None):
     idb = src.bytes(name + ".id", 32)
-    cap = mk_struct(eng, "NodeCapacity", {"storage_available": bv(tag, 64), "bandwidth_available": bv(0, 64), "reliability_score": fpv(1.0)})
-    ni = mk_struct(eng, "NodeInfo", {"id": VStruct([VStruct([idb], "DhtKey")], "NodeId"), "address": VStr(bv(1000 + tag, 64)),
+    if share_high is not None and not src.concrete:
+        # 'low_bytes' regime: the 16 high-order bytes are literally the first candidate's (shared terms); own symbols stay pinned for the driver
+        for k in range(16):
+            src.hyps.append(idb.elems[k] == share_high.elems[k])
+        idb = VArr(list(share_high.elems[:16]) + list(idb.elems[16:]))
+    cap = mk_struct(eng, "core_engine::NodeCapacity", {"storage_available": bv(tag, 64), "bandwidth_available": bv(0, 64), "reliability_score": fpv(1.0)})
+    ni = mk_struct(eng, "core_engine::NodeInfo", {"id": VStruct([VStruct([idb], "DhtKey")], "NodeId"), "address": VStr(bv(1000 + tag, 64)),
                                      "last_seen": mk_time(bv(0, 64), bv(0, 32), "SystemTime"), "capacity": cap})
     return ni, key_bv(idb)
 
@@ -48,13 +56,31 @@ def install_trust_provider(eng, trust_arr):
                              "TrustProvider::get_trust -> arbitrary (uninterpreted) function of the 32-byte node id"))
 
 
-def build(ck, storage, m, unit_trust, src, obs=None):
-    eng = ck.engine(unwind=18) if obs is None else ck.meta_engine()
+GRID_D_QUICK = [0, 1, 1 << 53, (1 << 53) + 1, 1 << 64, 10**30, 1 << 127, (1 << 128) - 1]
+GRID_T_QUICK = [0.0, 0.3, 0.9, 1.0]
+GRID_W_QUICK = [0.3, 0.5]
+GRID_D = [0, 1, 255, 1 << 8, (1 << 53) - 1, 1 << 53, (1 << 53) + 1, 1 << 64, (1 << 64) + 1, 1 << 100, 10**30, 2 * 10**30, 1 << 120, (1 << 127) - 1, 1 << 127, (1 << 128) - 1]
+GRID_T = [0.0, 0.1, 0.29, 0.3, 0.9, 1.0, 0.2, 0.5]
+GRID_W = [0.0, 0.3, 0.5, 1.0]
+
+
+def pick(sel, consts, mk):
+    r = mk(consts[-1])
+    for i in range(len(consts) - 2, -1, -1):
+        r = z3.If(sel == i, mk(consts[i]), r)
+    return r
+
+
+def build(ck, storage, m, unit_trust, src, obs=None, regime="any"):
+    eng = ck.engine(unwind=34) if obs is None else ck.meta_engine()
     keyb = src.bytes("key", 32)
     kbv = key_bv(keyb)
     nodes, ids = [], []
+    first_bytes = None
     for i in range(m):
-        ni, idbv = node_info(eng, src, f"c{i}", i)
+        ni, idbv = node_info(eng, src, f"c{i}", i, share_high=(first_bytes if regime == "low_bytes" and i > 0 else None))
+        if i == 0:
+            first_bytes = ni.f[0].f[0].f[0]
         nodes.append(ni)
         ids.append(idbv)
     count = src.bv("count", 64)
@@ -62,10 +88,28 @@ def build(ck, storage, m, unit_trust, src, obs=None):
     thr = src.f64("cfg.min_trust_threshold")
     excl = src.bool("cfg.exclude_untrusted")
     trust_in = [src.f64(f"c{i}.trust") for i in range(m)]
+    if regime == "low_bytes" and not src.concrete:
+        # ranking at EQUAL trust is the claim here: all candidates carry the same trust value (bit-identical)
+        for i in range(1, m):
+            src.hyps.append(z3.fpToIEEEBV(trust_in[i]) == z3.fpToIEEEBV(trust_in[0]) if False else trust_in[i] == trust_in[0])
+        trust_in = [trust_in[0]] * m
     hyps = list(src.hyps) + [z3.ULE(count, bv(m + 1, 64)), in_unit(w), in_unit(thr)]
     hyps += [ids[i] != ids[j] for i in range(m) for j in range(i)]
     if unit_trust:
         hyps += [in_unit(t) for t in trust_in]
+    top = lambda x: z3.Extract(255, 128, x)  # noqa: E731
+    if regime == "low_bytes":
+        pass  # candidates agree in the 16 high-order bytes and in trust by construction (shared terms), see node_info / trust_in above
+    elif regime in ("grid", "grid_small"):
+        GD, GT, GW = (GRID_D, GRID_T, GRID_W) if regime == "grid" else (GRID_D_QUICK, GRID_T_QUICK, GRID_W_QUICK)
+        # high-order distance, trust and weight range over representative grids (boundary values of the u128 -> f64 score); low-order bytes stay symbolic
+        for i in range(m):
+            dsel = src.bv(f"c{i}.dsel", 4)
+            tsel = src.bv(f"c{i}.tsel", 3)
+            hyps.append(top(kbv ^ ids[i]) == pick(dsel, GD, lambda v: bv(v, 128)))
+            hyps.append(trust_in[i] == pick(tsel, GT, fpv))
+        wsel = src.bv("cfg.wsel", 2)
+        hyps.append(w == pick(wsel, GW, fpv))
     if obs is None:
         st = State()
         T = z3.Const("trust_fn", z3.ArraySort(z3.BitVecSort(256), F64))
@@ -83,7 +127,7 @@ def build(ck, storage, m, unit_trust, src, obs=None):
         pc = st2.pc
         rl = res.len
         rids = [key_bv(e.f[0]) for e in res.elems]
-        rtags = [e.f[eng.struct_adt("NodeInfo").field_index("capacity")].f[0] for e in res.elems]
+        rtags = [e.f[eng.struct_adt("core_engine::NodeInfo").field_index("capacity")].f[0] for e in res.elems]
     else:
         pc = z3.BoolVal(True)
         rl = bv(len(obs["result"]), 64)
@@ -124,25 +168,22 @@ def build(ck, storage, m, unit_trust, src, obs=None):
 
 
 def cases(tier):
-    ms = [1, 2] if tier == "quick" else [1, 2, 3]
-    out = []
-    for m in ms:
-        out.append((True, m, False))   # storage config, any trust bit pattern: safety goals
-        out.append((True, m, True))    # storage config, trust in [0,1]: ranking goals
-        if m >= 2:
-            out.append((False, m, True))  # query config
+    """(storage?, m, unit_trust, regime)"""
+    out = [(True, 1, False, "any"), (True, 2, False, "any"), (True, 2, True, "low_bytes"), (False, 2, True, "low_bytes"), (True, 2, True, "grid_small")]
+    if tier != "quick":
+        out += [(True, 2, True, "grid"), (True, 3, False, "any"), (True, 3, True, "low_bytes"), (False, 3, True, "low_bytes"), (False, 2, True, "grid"), (True, 3, True, "grid")]
     return out
 
 
 def register_all(ck, tier):
-    for (storage, m, unit) in cases(tier):
-        params = {"storage": storage, "m": m, "unit_trust": unit}
-        tag = f"selector/{'storage' if storage else 'query'}[m={m},{'trust in [0,1]' if unit else 'any trust'}]"
+    for (storage, m, unit, regime) in cases(tier):
+        params = {"storage": storage, "m": m, "unit_trust": unit, "regime": regime}
+        tag = f"selector/{'storage' if storage else 'query'}[m={m},{'trust in [0,1]' if unit else 'any trust'},{regime}]"
 
-        def reg(storage=storage, m=m, unit=unit, params=params, tag=tag):
+        def reg(storage=storage, m=m, unit=unit, params=params, tag=tag, regime=regime):
             src = Src()
-            R = build(ck, storage, m, unit, src)
-            rp = harness.make_replayer(ck, "trust_peer_selector", "select", lambda s, obs: build(ck, storage, m, unit, s, obs)["goals"], params)
+            R = build(ck, storage, m, unit, src, None, regime)
+            rp = harness.make_replayer(ck, "trust_peer_selector", "select", lambda s, obs: build(ck, storage, m, unit, s, obs, regime), params)
             ck.register_src("select", params, src)
             for g, f in R["goals"].items():
                 ck.prove(f"{tag}/{g}", R["eng"], R["hyps"], f, on_sat=rp, meta={"goal": g, "fp_lemmas": True})
@@ -154,4 +195,4 @@ def register_all(ck, tier):
 
 
 def rebuild(ck, driver, params):
-    return lambda s, obs: build(ck, params["storage"], params["m"], params["unit_trust"], s, obs)["goals"]
+    return lambda s, obs: build(ck, params["storage"], params["m"], params["unit_trust"], s, obs, params.get("regime", "any"))
